@@ -1,0 +1,13 @@
+'''
+Created on Oct 1, 2026
+
+'''
+from vsc.model.model_visitor import ModelVisitor
+
+
+class ArrayTrimVisitor(ModelVisitor):
+    """Drops elements of random-size lists that were pre-allocated beyond the size"""
+    
+    def visit_field_scalar_array(self, f):
+        f.trim_to_size()
+        super().visit_field_scalar_array(f)
